@@ -19,9 +19,12 @@ type keyObj struct {
 	id int
 }
 
-type sigModel struct {
+// sigApp records one signature produced by the model.
+type sigApp struct {
 	key  *keyObj
 	hash []*smt.Term
+	v    *smt.Term   // recovery byte (27/28)
+	rs   []*smt.Term // 64 bytes
 }
 
 func (m *Machine) keyOf(p value, what string) *keyObj {
@@ -73,6 +76,108 @@ func registerCryptoIntrinsics(c func(string, intrinsicImpl)) {
 	})
 	c("(*"+cryptoPkg+".PublicKey).Equal", func(m *Machine, fr *frame, args []value) value {
 		return m.c.Bool(m.keyOf(args[0], "Equal").id == m.keyOf(args[1], "Equal").id)
+	})
+	// ---- ECDSA (secp256k1) sign / recover / verify ----
+	// A signature is [27+parity | S(key, hash)] with S an uninterpreted,
+	// collision-free function of (key identity, hash); recovery and
+	// verification succeed exactly for (signature, hash) pairs the model
+	// produced, recovery of anything else yields an unrelated key.
+	const ecdsaPkg = "github.com/decred/dcrd/dcrec/secp256k1/v4/ecdsa"
+	c(ecdsaPkg+".SignCompact", func(m *Machine, fr *frame, args []value) value {
+		k, ok := args[0].(*keyObj)
+		if !ok {
+			panic(pathAbort{"unsupported", "ecdsa.SignCompact: key not created by the key model"})
+		}
+		hash := m.bytesOf(args[1])
+		in := append(m.bytesOf(m.constBytes(keyBytes(k.id, 32))), hash...)
+		rs := m.hashModel("ecdsasig", 64, in, func(b []byte) []byte {
+			h1 := sha256.Sum256(append([]byte("verif-model-sig-1"), b...))
+			h2 := sha256.Sum256(append([]byte("verif-model-sig-2"), b...))
+			return append(h1[:], h2[:]...)
+		})
+		v := m.c.BVConst(8, uint64(27+k.id%2))
+		apps, _ := m.extra["sigApps"].([]sigApp)
+		if m.extra == nil {
+			m.extra = map[string]interface{}{}
+		}
+		m.extra["sigApps"] = append(apps, sigApp{key: k, hash: hash, v: v, rs: rs})
+		return byteSlice(append([]*smt.Term{v}, rs...))
+	})
+	findSig := func(m *Machine, sig []*smt.Term, hash []*smt.Term) *keyObj {
+		apps, _ := m.extra["sigApps"].([]sigApp)
+		for _, a := range apps {
+			if len(sig) != 65 || len(hash) != len(a.hash) {
+				continue
+			}
+			cond := m.c.And(m.c.Eq(sig[0], a.v), m.c.And(m.seqEq(sig[1:], a.rs), m.seqEq(hash, a.hash)))
+			if m.branch(cond) {
+				return a.key
+			}
+		}
+		return nil
+	}
+	c(ecdsaPkg+".RecoverCompact", func(m *Machine, fr *frame, args []value) value {
+		sig, hash := m.bytesOf(args[0]), m.bytesOf(args[1])
+		k := findSig(m, sig, hash)
+		if k == nil {
+			// not a signature of this hash made by a model key: some unrelated key
+			n, _ := m.extra["unknownKeys"].(int)
+			if m.extra == nil {
+				m.extra = map[string]interface{}{}
+			}
+			m.extra["unknownKeys"] = n + 1
+			k = &keyObj{id: 100000 + n}
+		}
+		return tuple{k, m.c.False, iface{}}
+	})
+	c("(*"+cryptoPkg+".Signature).Verify", func(m *Machine, fr *frame, args []value) value {
+		sp := args[0].(*value)
+		if sp == nil {
+			panic(runtimeErr{"invalid memory address or nil pointer dereference (nil *Signature)"})
+		}
+		sb := m.bytesOf((*sp).(structure)[0])
+		msg := m.bytesOf(args[1])
+		pp, ok := args[2].(*value)
+		if len(msg) == 0 || len(msg) > 32 || !ok || pp == nil || len(sb) < 64 {
+			return m.c.False
+		}
+		pub := m.keyOf(args[2], "Signature.Verify")
+		apps, _ := m.extra["sigApps"].([]sigApp)
+		rs := sb
+		if len(sb) == 65 {
+			rs = sb[1:]
+		}
+		for _, a := range apps {
+			if a.key.id != pub.id || len(msg) != len(a.hash) || len(rs) != 64 {
+				continue
+			}
+			if m.branch(m.c.And(m.seqEq(rs, a.rs), m.seqEq(msg, a.hash))) {
+				return m.c.True
+			}
+		}
+		return m.c.False
+	})
+	c(cryptoPkg+".ParsePublicKey", func(m *Machine, fr *frame, args []value) value {
+		bs := m.bytesOf(args[0])
+		cb, ok := allConst(bs)
+		if !ok {
+			panic(pathAbort{"unsupported", "crypto.ParsePublicKey of symbolic bytes"})
+		}
+		n, _ := m.extra["unknownKeys"].(int)
+		ids := make([]int, 0, m.keySeq+n)
+		for i := 1; i <= m.keySeq; i++ {
+			ids = append(ids, i)
+		}
+		for i := 0; i < n; i++ {
+			ids = append(ids, 100000+i)
+		}
+		for _, id := range ids {
+			if (len(cb) == 33 && cb[0] == 2 && string(cb[1:]) == string(keyBytes(id, 32))) ||
+				(len(cb) == 65 && cb[0] == 4 && string(cb[1:]) == string(keyBytes(id, 64))) {
+				return tuple{m.newKeyPtr(&keyObj{id: id}), iface{}}
+			}
+		}
+		return tuple{(*value)(nil), m.errString("model: not the serialisation of a model key")}
 	})
 	c("(*"+cryptoPkg+".PublicKey).String", func(m *Machine, fr *frame, args []value) value {
 		return strV{s: fmt.Sprintf("<model key %d>", m.keyOf(args[0], "String").id)}
